@@ -127,10 +127,13 @@ def main():
         Dm = mesh.diameter()
         c0 = mesh.V.mean(axis=1)
         rngp = ctx.rng(mname, "points")
+        # the sanitizer worker and the quick tier use the first 12 of the thorough tier's 40 points (same case id = same data)
         npt = 12 if ctx.quick or ctx.worker else 40
-        dirs = rngp.normal(size=(3, npt))
+        dirs = rngp.normal(size=(3, 40))
         dirs /= np.linalg.norm(dirs, axis=0)
-        pts = c0[:, None] + dirs * (Dm * rngp.uniform(0.9, 3.0, size=npt))
+        radii = Dm * rngp.uniform(0.9, 3.0, size=40)
+        dirs, radii = dirs[:, :npt], radii[:npt]
+        pts = c0[:, None] + dirs * radii
         for fam, op, kind, ks in cfg:
             for k in ks:
                 for vi in range(nvar):
@@ -168,7 +171,7 @@ def main():
                         key = "%s.%s" % (fam, op)
                         if not (is_ff and kcls == "complex_k"):
                             worst[key] = max(worst.get(key, 0.0), dev)
-                        ctx.diff("val:%s" % cid, val, scale=float(np.abs(ref).max()))
+                        ctx.diff("val:%s" % cid, np.asarray(val)[..., :12], scale=float(np.abs(ref).max()))
                         ctx.case(cid, {"mesh": mname, "op": key, "space": kind, "opts": S.opts_key(opts), "k": k, "order": r, "complex_density": bool(cplx), "rel_dev": dev})
                         if val.shape != ref.shape:
                             ctx.violation("potential_value:%s:shape" % key, "%s: %s vs %s" % (cid, val.shape, ref.shape), cid)
